@@ -397,8 +397,30 @@ def pairing_clause(model, rep, funcs):
                 rep.ob("O", a, "row i of the result arrays is written from result i", (not bad) and nst >= 3, f"stores not at the loop index: {bad}; {nst} stores",
                        node=lp, fn=f, clause="1 order", stmt=f"write-back loop of {f.name}")
         if not done:
-            rep.ob("O", a, "write-back loop enumerates the results", None, "no `for i, result in enumerate(results)` loop", node=f.node, fn=f,
-                   clause="1 order", stmt=f"def {f.name}")
+            # column-wise write-back: `a, b, c, d = zip(*results)` transposes the results in order, and every buffer is filled by one whole-slice
+            # assignment from one of these columns (or an unfiltered comprehension over one of them): row i is still written from result i
+            zs = [n for n in walk_no_nested(f.node) if isinstance(n, ast.Assign) and isinstance(n.targets[0], ast.Tuple) and isinstance(n.value, ast.Call) and
+                  dotted(n.value.func) == "zip" and len(n.value.args) == 1 and isinstance(n.value.args[0], ast.Starred) and norm_src(n.value.args[0].value) == "results"]
+            if len(zs) == 1:
+                rep.instance("O.writeback", f.loc(zs[0]))
+                cols = {t.id for t in zs[0].targets[0].elts if isinstance(t, ast.Name)}
+                stores = [n for n in ast.walk(f.node) if isinstance(n, ast.Assign) and isinstance(n.targets[0], ast.Subscript)]
+                bad = []
+                for st in stores:
+                    sl = st.targets[0].slice
+                    whole = isinstance(sl, ast.Slice) and sl.lower is None and sl.upper is None and sl.step is None
+                    v = st.value
+                    src_ok = (isinstance(v, ast.Name) and v.id in cols) or \
+                        (isinstance(v, (ast.ListComp, ast.GeneratorExp)) and len(v.generators) == 1 and not v.generators[0].ifs and
+                         isinstance(v.generators[0].iter, ast.Name) and v.generators[0].iter.id in cols)
+                    if not (whole and src_ok):
+                        bad.append(norm_src(st)[:60])
+                rep.ob("O", a, "row i of the result arrays is written from result i", (not bad) and len(stores) >= 3,
+                       f"stores that are not whole-slice assignments from a column of zip(*results): {bad}; {len(stores)} stores", node=zs[0], fn=f, clause="1 order",
+                       stmt=f"write-back loop of {f.name}")
+            else:
+                rep.ob("O", a, "write-back loop enumerates the results", None, "no `for i, result in enumerate(results)` loop", node=f.node, fn=f,
+                       clause="1 order", stmt=f"def {f.name}")
     # group alignment: tasks appended while iterating self, results zipped with self again
     for a in (LG + "align", LG + "align_multi_templates"):
         f = funcs.get(a)
